@@ -1,13 +1,13 @@
 CONSTANTS
   NR = 3
   NC = 2
-  NV = 2
-  WPV = 2
+  NV = 1
+  WPV = 1
   CPLX = 2
-  Ascii = TRUE
+  Ascii = FALSE
   PerLine = 3
   RowOffset = 0
-  WriterOnly = TRUE
+  WriterOnly = FALSE
   Export = TRUE
 INIT Init
 NEXT Next
